@@ -212,12 +212,24 @@ def run_C02(run):
     # (5d) XQueryVM2: the implementation-shaped model of the predicate pipeline (filter / merge rewrite / group, Evaluate
     #      resets, cursor save/restore).  TLC checks it delivers the denotation (VM2Refines); the engine's delivery sequence
     #      and navigator movements are compared with the model's (a difference is MODEL DRIFT: reported, never a verdict)
-    vm2_stage(run, {1, 3, 4}, "C02")
+    vm2_stage(run, {1, 3, 4, 8}, "C02")
     for dev, cfgd in VM2_DEVIATIONS:
         r = run.tlc("MC_VM2", consts(VM2_BASE, Deviations={dev}, **cfgd), invariants=("VM2Refines",),
                     name="vm2-deviation-" + dev, out=False, allow_violation=True)
         if "Invariant VM2Refines is violated" not in r["log"]:
             raise ToolingError("XQueryVM2 does not refute the re-introduced defect %s: vacuous model" % dev)
+    # (5e) the model reproduces the recorded finding KF-C02-1 (TLC must refute the refinement without the exclusion)
+    r = run.tlc("MC_VM2", consts(VM2_BASE, MaxNodes=5, UseCat=False, CatIds=set(), ElemNames={"a"}, TextVals={"1"}, HostAxes={"descendant"},
+                                 PredAxes={"child"}, Parts={8}), invariants=("VM2RefinesKF",), name="vm2-reproduces-KF-C02-1", out=False,
+                allow_violation=True)
+    if "Invariant VM2RefinesKF is violated" not in r["log"]:
+        raise ToolingError("XQueryVM2 no longer reproduces the recorded finding KF-C02-1")
+    # (5f) TRACE VALIDATION against the implementation-shaped model: seeded documents up to 16 nodes x random expressions of the
+    #      C02/C03 grammar run on the engine with a recording navigator; TLC (XVMBatch.tla) requires the recorded delivery
+    #      sequence and cursor movements to be exactly the model's behaviour (a difference is model drift, never a verdict)
+    tr = run.drive("vm", 2500 if q else 30000, extra=["-nodes", "16"])
+    run.validate_batch(tr, "vm2-trace-validation", consts={"Deviations": set()}, module="XVMBatch", drift=True,
+                       env_extra={"JAVA_TOOL_OPTIONS": "-Xss256m"})
     # (6) Flow B: seeded documents up to 14 nodes, paths of up to 3 steps carrying up to 3 predicates of nesting depth 2
     tr = run.drive("preds", 2500 if q else 40000, extra=["-nodes", "14"])
     run.validate_batch(tr, "preds-flowB")
@@ -236,6 +248,10 @@ def run_C03(run):
     run.gen_and_replay("MC_Expr", consts(ec, Family="C03nested", MaxNodes=1 if q else 5, CatIds={3, 5, 7} if q else ALL_CAT), name="pos-nested", kind="sel-set")
     # (2b) XQueryVM2 on numeric predicates (position counters, positmap, merge rewrite, (path)[n] re-rooting)
     vm2_stage(run, {2, 3, 4, 5, 7}, "C03")
+    # trace validation against the model on seeded larger documents (see C02 (5f)); other seed
+    tr = run.drive("vm", 2500 if q else 30000, extra=["-nodes", "14"], seed_offset=100)
+    run.validate_batch(tr, "vm2-trace-validation", consts={"Deviations": set()}, module="XVMBatch", drift=True,
+                       env_extra={"JAVA_TOOL_OPTIONS": "-Xss256m"})
     for dev in ("pos-ignores-test", "child-posit-not-reset", "group-posit-not-reset"):
         r = run.tlc("MC_VM2", consts(VM2_BASE, Deviations={dev}, Parts={2, 4, 5}, HostAxes={"child"}), invariants=("VM2Refines",),
                     name="vm2-deviation-" + dev, out=False, allow_violation=True)
